@@ -14,11 +14,11 @@
     with the per-field mappers' `to_schema`.
   * `issues` / `inCodeFragment`: the explicit, decidable list of the regions where the round trip
     is *not* the identity today; each issue key is a known-finding key `roundtrip:<issue>`.
-  * `requiredPost`: the post-state of the caller's `required` list (the generator `remove`s from it).
-  * `crashes` / `bodyEmpty` / `refsOrdered`: when generation raises, emits a class without a body,
-    or emits a forward reference.
-  The text of the string-bearing parts is produced by `Sem/PyLex.lean` (`wrapVal`, `docWrap`,
-  `pyRepr`); `stringSites` lists them for a schema.
+  * `runRequired` / `requiredAfter`: the post-state of the caller's `required` list (the generator
+    `remove`s from a private copy).
+  * `crashes` / `refsOrdered`: when generation raises or emits a forward reference.
+  The text of the string-bearing parts is produced by `Sem/PyLex.lean` (`docWrap`, `pyRepr`);
+  `stringSites` lists them for a schema.
 -/
 import TypedpyModel.Core.Field
 import TypedpyModel.Sem.PyLex
@@ -60,9 +60,6 @@ deriving Repr, Inhabited
 
 /-! ### schema → declaration (what the generated code evaluates to) -/
 
-/-- `ArrayMapper.get_paramlist_from_schema` passes only `uniqueItems additionalItems items`:
-    `minItems` / `maxItems` are dropped -/
-def arraySize (sz : SizeOpts) : SizeOpts := { min := none, max := none, uniq := sz.uniq }
 /-- `MapMapper.get_paramlist_from_schema` passes `minItems` / `maxItems` -/
 def mapSize (mn mx : Option Nat) : SizeOpts := { min := mn, max := mx, uniq := false }
 
@@ -88,9 +85,9 @@ def schemaToDecl (ρ : String → FieldDecl) : Schema → FieldDecl
   | .str lo hi p => .string lo hi p
   | .bool => .boolean
   | .enum vs => .enumLit vs
-  | .arrAny sz => .seqAny .list (arraySize sz)
-  | .arrOf s sz => .seqOf .list (schemaToDecl ρ s) (arraySize sz)
-  | .arrPos ss addl sz => .seqPos .list (schemaToDeclL ρ ss) addl (arraySize sz)
+  | .arrAny sz => .seqAny .list sz
+  | .arrOf s sz => .seqOf .list (schemaToDecl ρ s) sz
+  | .arrPos ss addl sz => .seqPos .list (schemaToDeclL ρ ss) addl sz
   -- `if not any([additional_properties, …]): return []` — `minItems`/`maxItems` are dropped too
   | .mapAny _ _ _ => .mapAny {}
   | .mapOf v mn mx => .mapOf (.string none none none) (schemaToDecl ρ v) (mapSize mn mx)
@@ -233,9 +230,6 @@ def toSchemaClass : FieldDecl → Schema
 
 /-! ### where the round trip is not the identity today -/
 
-def sizeDropped (sz : SizeOpts) : List String :=
-  if sz.min.isSome || sz.max.isSome then ["array-size-dropped"] else []
-
 def nodupB : List String → Bool
   | [] => true
   | x :: xs => !xs.contains x && nodupB xs
@@ -262,9 +256,9 @@ def issues : Schema → List String
   | .str _ _ _ => []
   | .bool => []
   | .enum vs => if vs.all enumValOk then [] else ["enum-value-type"]
-  | .arrAny sz => sizeDropped sz
-  | .arrOf s sz => sizeDropped sz ++ issues s
-  | .arrPos ss _ sz => sizeDropped sz ++ issuesL ss
+  | .arrAny _ => []
+  | .arrOf s _ => issues s
+  | .arrPos ss _ _ => issuesL ss
   | .mapAny addlKw mn mx =>
     (if addlKw.isSome then ["map-additionalProperties-bool"] else [])
       ++ (if mn.isSome || mx.isSome then ["map-size-dropped"] else [])
@@ -343,20 +337,42 @@ end
 
 /-! ### side effect on the caller's schema, crashes, empty bodies, forward references -/
 
-/-- `for name, sch in properties.items(): if "default" in sch and name in required:
-    required.remove(name)` — the post-state of the caller's `required` list -/
-def requiredPost (defaultNames : List String) (required : List String) : List String :=
+/-- `required = list(required)` then, on that private copy,
+    `for name, sch in properties.items(): if "default" in sch and name in required:
+    required.remove(name)` — the list that is emitted as `_required` -/
+def requiredLocal (defaultNames : List String) (required : List String) : List String :=
   defaultNames.foldl (fun acc n => acc.erase n) required
 
-/-- post-state of the `required` entry of the schema handed to `schema_to_struct_code` -/
-def requiredAfter : Schema → Option (List String)
+/-- the `_required = [...]` list emitted at top level -/
+def emittedRequired : Schema → Option (List String)
   | .obj props defaults (some req) _ =>
-    some (requiredPost ((props.map (·.1)).filter (fun n => (defaults.map (·.1)).contains n)) req)
-  | .obj _ _ none _ => none
+    some (requiredLocal ((props.map (·.1)).filter (fun n => (defaults.map (·.1)).contains n)) req)
   | _ => none
+
+/-- effect of `schema_to_struct_code` on the heap cell holding the caller's `required` list
+    (Aeneas style: the function returns the post-state of what it can reach).  All `remove`s go
+    to the private copy, no statement writes through the caller's reference. -/
+structure ReqState where
+  /-- the caller's list -/
+  caller : Option (List String)
+  /-- the function's working list -/
+  «local» : Option (List String)
+
+def runRequired (s : Schema) (callerReq : Option (List String)) : ReqState :=
+  -- `required = list(required) if required is not None else None`
+  let st : ReqState := { caller := callerReq, «local» := callerReq }
+  -- the loop mutates `local` only
+  match s, st.local with
+  | .obj props defaults _ _, some req =>
+    { st with «local» := some (requiredLocal
+        ((props.map (·.1)).filter (fun n => (defaults.map (·.1)).contains n)) req) }
+  | _, _ => st
+
 def requiredBefore : Schema → Option (List String)
   | .obj _ _ req _ => req
   | _ => none
+/-- post-state of the `required` entry of the schema handed to `schema_to_struct_code` -/
+def requiredAfter (s : Schema) : Option (List String) := (runRequired s (requiredBefore s)).caller
 
 mutual
 /-- generation raises: `additionalProperties: true|false` … on a property-less object is handed to
@@ -383,24 +399,12 @@ def crashesP : List (String × Schema) → List String
 termination_by structural ps => ps
 end
 
-/-- at top level `name in required` is evaluated with `required = None` when a property has a
-    default and the schema has no `required` -/
+/-- crashes of `schema_to_struct_code` on a top-level schema -/
 def topCrashes : Schema → List String
-  | .obj props defaults none addl =>
-    (if defaults.isEmpty then [] else ["crash:default-without-required"])
-      ++ crashes (.obj props defaults none addl)
   -- a top-level object without properties generates a class without fields: nothing is converted
   | .mapAny _ _ _ => []
   | .mapOf _ _ _ => []
   | s => crashes s
-
-/-- the class statement has no body (IndentationError): no description, nothing emitted for
-    `additionalProperties`, no property, no `_required` -/
-def bodyEmpty (hasDescription : Bool) : Schema → Bool
-  | .obj props _ required addl => !hasDescription && addl && props.isEmpty && required.isNone
-  | .mapAny addlKw _ _ => !hasDescription && addlKw.getD true
-  | .mapOf _ _ _ => !hasDescription
-  | _ => false
 
 mutual
 /-- names of the definitions a schema refers to -/
@@ -471,9 +475,9 @@ termination_by structural kvs => kvs
 end
 
 /-- `_handle_schema_default_to_code`: list/dict defaults go through `repr` (inside a lambda),
-    a `str` default through `wrap_val` -/
+    a `str` default through `_str_literal` = `repr` -/
 def defaultSites (pr : Char → Bool) : PyVal → List StringSite
-  | .str s => [⟨"default", PyLex.wrapVal s, s⟩]
+  | .str s => [⟨"default", PyLex.pyRepr pr s, s⟩]
   | v => reprSites pr "default-repr" v
 
 def defaultsSites (pr : Char → Bool) : List (String × PyVal) → List StringSite
@@ -486,7 +490,7 @@ def namesSites (pr : Char → Bool) : List String → List StringSite
 
 mutual
 def stringSites (pr : Char → Bool) : Schema → List StringSite
-  | .str _ _ (some p) => [⟨"pattern", PyLex.wrapVal p, p⟩]
+  | .str _ _ (some p) => [⟨"pattern", PyLex.pyRepr pr p, p⟩]
   | .enum vs => reprSitesL pr "enum" vs
   | .arrOf s _ => stringSites pr s
   | .arrPos ss _ _ => stringSitesL pr ss
